@@ -38,6 +38,9 @@ class C20(Prop):
                     extra.append(G.op_match_doc("json", 0, t, r.choice(G.BAD_JSON)))
                 elif k == 2:
                     extra.append({"op": "skip", "test": hx(t), "form": r.choice(["", "f", "now"])})
+                    if r.chance(1, 2):
+                        # a sub-test of a skipped test calling a skip wrapper too: every call counts
+                        extra.append({"op": "skip", "test": hx(t + r.choice([b"/child", b"/sub", b"/child/deep"])), "form": r.choice(["", "f", "now"])})
                 elif k == 3:
                     extra.append(G.op_match_doc("standjson", 1, t, r.choice(G.JSON_DOCS)))
                 elif k == 4:
